@@ -138,6 +138,7 @@ type vhScenario struct {
 	ID, InResponseTo, Destination, Version, Issuer, StatusCode string
 	hasIssuer                                                  bool
 	issuerOptional                                             bool // the scenario may omit the (schema-optional) Response Issuer
+	nonASCIIIssuer                                             bool // the Issuer value ends in a non-ASCII character
 	// expected: the assertions that are legitimately verifiable, in document order as the library must return them
 	// (direct children of the root; decrypted ones take the place the library gives them)
 	direct    []*vhA // direct-child plaintext assertions (document order)
@@ -166,6 +167,9 @@ func vhResponseRoot(s *vhScenario, tag string) *etree.Element {
 	}
 	if s.hasIssuer {
 		s.Issuer = vString("resp.Issuer")
+		if s.nonASCIIIssuer {
+			s.Issuer += "\u00e9"
+		}
 		vhText2(r, "saml:Issuer", s.Issuer)
 	}
 	if s.rootSig != vhSigNone {
